@@ -10,6 +10,7 @@ search(): the property's own predicate on the implementation: compile generated 
 """
 import copy
 import itertools
+import os
 import logging
 import math
 import warnings
@@ -54,8 +55,11 @@ ASSUMPTIONS = [
     "set iteration order of `allowed_modes - regrefs` is reproduced by evaluating the same expression in the harness (modelled as an explicit enumeration argument, theorem quantifies over all duplicate-free enumerations)",
     "Borealis phase pipeline is proved over exact rationals for every positive rational pi; binary64 rounding is covered only by the correspondence run",
 ]
-MANIFEST_TEXT = ("validate_sound, counts, borealis_range, borealis_insert, s2_merge (under the one-duplicated-pair hypothesis) are full "
-                 "theorems about the models; xunitary_shape / statistics preservation are checked by search only")
+MANIFEST_TEXT = ("full theorems about the models: C12_validate_sound (+ unknown_parameter, invalid_value), C12_counts, C12_s2_merge (all multiplicities, "
+                 "all set enumerations, under the at-most-one-repeated-pair hypothesis; refuted without it: C12_s2_merge_refuted_indexerror / _silent), "
+                 "C12_s2_merge_one_step, C12_borealis_range (congruence modulo pi; modulo 2 pi refuted: C12_borealis_pi_shift_refuted), C12_borealis_insert. "
+                 "Not proved (search only): C12_xunitary_shape corollary chain (mesh re-synthesis reproduces U), Xcov/Takagi statistics preservation, "
+                 "networkx isomorphism / blackbird template matching")
 
 PI = math.pi
 X_COMPILERS = ["Xstrict", "Xunitary", "Xcov"]
@@ -1007,6 +1011,17 @@ def cf(x):
     return coq.coq_float(float(x))
 
 
+def coq_eval_tmp(ctx, name, text):
+    """ctx.coq_eval on a per-process scratch file (concurrent runs must not share names); removed when it evaluated"""
+    ok, vals, raw = ctx.coq_eval(name, text)
+    if ok:
+        try:
+            os.remove(os.path.join(ctx.work, name + ".v"))
+        except OSError:
+            pass
+    return ok, vals, raw
+
+
 # ---- (1) validate_parameters --------------------------------------------------------------------------
 
 def gen_validate_input(rng):
@@ -1068,6 +1083,8 @@ def impl_validate(inp):
         nm = s.split("'")[1]
         val = s.split("has invalid value ")[1].split(". Only")[0]
         return ["VInvalid", nm, float(val)]
+    except Exception as e:
+        return ["Raise", type(e).__name__]
 
 
 def corr_validate(ctx, inputs, tag):
@@ -1095,7 +1112,7 @@ def corr_validate(ctx, inputs, tag):
                         "Eval vm_compute in map (fun c => match validate_parameters float PrimFloat.add PrimFloat.sub PrimFloat.leb (fst c) (snd c) with "
                         "VOk => (0, 0, 0%%float) | VUnknown p => (1, p, 0%%float) | VInvalid p v => (2, p, v) end) cases.\n"
                         % coq.coq_list(items, lambda s: s).replace("; (", ";\n (")).replace("%%", "%")
-    ok, vals, raw = ctx.coq_eval("corr_validate_" + tag, text)
+    ok, vals, raw = coq_eval_tmp(ctx, "corr_validate_%s_%d" % (tag, os.getpid()), text)
     if not ok:
         ctx.obligation("correspondence:validate_parameters:" + tag, False, raw)
         return
@@ -1106,7 +1123,10 @@ def corr_validate(ctx, inputs, tag):
         ctx.traces += 1
         rejected = iv[0] != "VOk"
         ctx.case({"model": "validate", "input": inp, "impl": iv}, nontrivial=rejected, bucket="corr:validate:" + iv[0])
-        if m != iv:
+        if iv[0] == "Raise":
+            ctx.counterexample("validate_parameters:raises:" + iv[1], "Device.validate_parameters raised %s instead of accepting or raising ValueError" % iv[1],
+                               {"family": "corr", "model": "validate", "input": inp, "impl": iv, "coq": m})
+        elif m != iv:
             data = {"family": "corr", "model": "validate", "input": inp, "impl": iv, "coq": m}
             # property predicate: accepted => every flattened value inside a range; rejected => some value outside
             flat = []
@@ -1195,6 +1215,8 @@ def impl_modes(inp):
         return ["AMCircuitError", which], None
     except KeyError:
         return ["AMKeyError"], None
+    except Exception as e:
+        return ["Raise", type(e).__name__], None
 
 
 def corr_modes(ctx, inputs, tag):
@@ -1217,7 +1239,7 @@ def corr_modes(ctx, inputs, tag):
             items.append("assert_modes_dict (mkD %s %s %s) %s" % (o("pnr_max"), o("homodyne_max"), o("heterodyne_max"),
                          coq.coq_list(["mkM %s %d" % (MEAS[nm], len(ms)) for nm, ms in inp["cmds"]])))
     text = FLOAT_HDR + "Eval vm_compute in map (fun r => match r with AMOk => (0, 0) | AMCircuitError w => (1, w) | AMKeyError => (2, 0) end) %s.\n" % coq.coq_list(items)
-    ok, vals, raw = ctx.coq_eval("corr_modes_" + tag, text)
+    ok, vals, raw = coq_eval_tmp(ctx, "corr_modes_%s_%d" % (tag, os.getpid()), text)
     if not ok:
         ctx.obligation("correspondence:assert_modes:" + tag, False, raw)
         return
@@ -1225,7 +1247,10 @@ def corr_modes(ctx, inputs, tag):
         m = ["AMOk"] if mv[0] == 0 else (["AMCircuitError", mv[1]] if mv[0] == 1 else ["AMKeyError"])
         ctx.traces += 1
         ctx.case({"model": "modes", "input": inp, "impl": iv}, nontrivial=iv[0] != "AMOk", bucket="corr:modes:" + iv[0])
-        if m != iv:
+        if iv[0] == "Raise":
+            ctx.counterexample("assert_modes:raises:" + iv[1], "assert_modes raised %s instead of accepting or raising CircuitError" % iv[1],
+                               {"family": "corr", "model": "modes", "input": inp, "impl": iv, "coq": m})
+        elif m != iv:
             data = {"family": "corr", "model": "modes", "input": inp, "impl": iv, "coq": m}
             # property predicate: accepted iff the counts are within the limits (independent count)
             within = None
@@ -1314,7 +1339,7 @@ def corr_s2(ctx, inputs, tag):
         dup_impl.append([[list(k), locs] for k, locs in xunitary_mod.list_duplicates(keys)])
     text = FLOAT_HDR + ("Eval vm_compute in map (fun r => match r with Ok l => (0, map (fun c => (mi c, mj c, sr c, sphi c)) l) | CircuitErr c => (c, []) | IndexErr => (100, []) end) %s.\n"
                         "Eval vm_compute in %s.\n") % (coq.coq_list(items).replace("%%", "%"), coq.coq_list(dup_items))
-    ok, vals, raw = ctx.coq_eval("corr_s2_" + tag, text)
+    ok, vals, raw = coq_eval_tmp(ctx, "corr_s2_%s_%d" % (tag, os.getpid()), text)
     if not ok:
         ctx.obligation("correspondence:s2_stage:" + tag, False, raw)
         return
@@ -1402,7 +1427,7 @@ def corr_borealis(ctx, inputs, tag):
     text = FLOAT_HDR + ("Eval vm_compute in map (map (map (fun q => let r := Qred q in (Qnum r, Zpos (Qden r))))) %s.\n"
                         "Eval vm_compute in map (fun r => match r with Some (out, uo) => (true, map b_tag out, uo) | None => (false, [], []) end) %s.\n"
                         ) % (coq.coq_list(items), coq.coq_list(ins_items))
-    ok, vals, raw = ctx.coq_eval("corr_borealis_" + tag, text)
+    ok, vals, raw = coq_eval_tmp(ctx, "corr_borealis_%s_%d" % (tag, os.getpid()), text)
     if not ok:
         ctx.obligation("correspondence:borealis:" + tag, False, raw)
         return
